@@ -1,7 +1,9 @@
 ------------------------------ MODULE SigCover ------------------------------
 (* C28: the manipulation lattice.  geom.ndjson lists every signature of every        *)
 (* document with its measured geometry (file length f, /ByteRange a b c d, extent     *)
-(* [gaplo, gaphi) of the /Contents hex string).  Every reachable state is one case:   *)
+(* [gaplo, gaphi) of the /Contents hex string, gt = the gap widenings that end on a    *)
+(* later '>' byte).  The synthetic documents span signature profile x /Type of the     *)
+(* signature dictionary (Sig, DocTimeStamp) x role (field value, direct /Perms /UR3).  Every reachable state is one case:   *)
 (* a signature plus one manipulation, with the predicted new /ByteRange, file length  *)
 (* and Covers.  harness/cmd/sig applies it to the real file and runs the real         *)
 (* validation; SigCoverTrace judges the recorded verdicts.                            *)
@@ -32,6 +34,8 @@ Cs  == (0-2)..Far
 E2s == IF Wide THEN {0-10, 0-2, 0-1, 0, 1, 2} ELSE {0-10, 0-1, 0, 1}
 Ds  == ((0-Shift)..Shift)
 
+(* widenings of the gap that make it end exactly on a later '>' byte (e.g. the brackets closing the dictionary) *)
+Closers(g) == {g.gt[i] : i \in 1..Len(g.gt)}
 P(fam, p1, p2, p3, p4) == [fam |-> fam, p1 |-> p1, p2 |-> p2, p3 |-> p3, p4 |-> p4]
 Manips(g) ==
     {P("intact", 0, 0, 0, 0), P("incr", 0, 0, 0, 0)}
@@ -39,7 +43,7 @@ Manips(g) ==
     \cup {P("brshift", i, dl, 0, 0) : i \in 1..4, dl \in Ds \ {0}}
     \cup ({P("gapmove", x, y, 0, 0) : x \in Ds, y \in Ds} \ {P("gapmove", 0, 0, 0, 0)})
     \cup {P("overlap", k, 0, 0, 0) : k \in {1, 2, 10}}
-    \cup (IF g.synth THEN {P("resign", a, e1, c, e2) : a \in 0..AMax, e1 \in E1s, c \in Cs, e2 \in E2s} ELSE {})
+    \cup (IF g.synth THEN {P("resign", a, e1, c, e2) : a \in 0..AMax, e1 \in E1s, c \in Cs \cup Closers(g), e2 \in E2s} ELSE {})
 
 BR0(g) == <<g.a, g.b, g.c, g.d>>
 
